@@ -131,6 +131,15 @@ CHECKS = {
             "Exhaustive up to 1 (thorough 2) connective/lambda bracket over 3 root models plus TLC-simulated deeper "
             "filters, on 2 instances; each parent set must equal the spec's on both ORMs (so the ORMs agree).",
             "Trusted: spec/Rel.tla; Django 6.1 / SQLAlchemy 2.0 / SQLite 3.40; lambda bodies over non-null child columns."),
+    "C15": ("DESIGN.md 6/C15",
+            "TLC explores the query-composition machine MC_C15 (host steps where/join/order/annotate in every order x "
+            "entry style x filter, then Apply); every behaviour replayed on natively built host queries with the real "
+            "shorthands; rows/order/annotations/join count compared with the spec (Rel!EvalR); import-order histories of "
+            "sqlalchemy.func in fresh subprocesses",
+            "Exhaustive: all 5.5k behaviours of the machine (4 entry styles, 3 base conditions, inner/outer pre-join, "
+            "ordering, annotation, 9 filters); 19 host func names compared before/after importing the backend, in both "
+            "import orders.",
+            "Trusted: spec/Rel.tla; native base-query construction in harness/props/c15.py; SQLite 3.40."),
 }
 
 PENDING = ["C01", "C02", "C03", "C04", "C06", "C07", "C08", "C09", "C10", "C11", "C12", "C13", "C14", "C15",
